@@ -144,6 +144,51 @@ def c18_order_search(rp, seed):
     return None
 
 
+@checker("c18_update")
+def c18_update(rp):
+    """compare (all four operators, both ways, ordinal, hash, ==), then replace mu / sigma of `a` in place,
+    then compare again: the verdict must follow the current values"""
+    R = rating_cls(rp["model"])
+    a = R(num(rp["a"][0]), num(rp["a"][1]))
+    b = R(num(rp["b"][0]), num(rp["b"][1]))
+    for f in OPS.values():
+        f(a, b), f(b, a)
+    a.ordinal(), b.ordinal(), hash(a), hash(b), a == b
+    a.mu, a.sigma = num(rp["a2"][0]), num(rp["a2"][1])
+    op = rp["op"]
+    for (x, y, tag) in ((a, b, "a op b"), (b, a, "b op a")):
+        got = OPS[op](x, y)
+        want = OPS[op](_ordinal_spec(x.mu, x.sigma), _ordinal_spec(y.mu, y.sigma))
+        if got is not want:
+            return True, (f"{rp['model']}Rating: after a was compared as ({num(rp['a'][0])!r},{num(rp['a'][1])!r}) and then updated in place to ({a.mu!r},{a.sigma!r}): "
+                          f"{tag} with b=({b.mu!r},{b.sigma!r}), {op} -> {got!r}, ordinals say {want!r}")
+    return False, "comparisons follow the current values"
+
+
+@searcher("c18_update")
+def c18_update_search(rp, seed):
+    rnd = random.Random(seed)
+    # in-place updates whose old and new values have colliding hashes come first (CPython: hash(-1) ==
+    # hash(-2); integer-valued floats hash modulo 2^61 - 1), then ordinary ones
+    pairs = [((-1.0, 2.0), (-2.0, 2.0)), ((1.0, 2.0), (2.0 ** 61, 2.0)), ((25.0, -1.0), (25.0, -2.0)), ((0.0, 1.0), (float(2 ** 61 - 1), 1.0)),
+             ((-1, 3), (-2, 3)), ((25.0, 8.0), (30.0, 8.0)), ((25.0, 8.0), (25.0, 2.0))]
+    for k in range(400):
+        if k < len(pairs):
+            a, a2 = pairs[k]
+        else:
+            a = (rnd.choice([-3.0, -1.0, 0.0, 1.0, 25.0]), rnd.choice([0.5, 1.0, 2.0, 8.0]))
+            a2 = (rnd.choice([-2.0, 2.0 ** 61, 0.5, 30.0, 10.0]), rnd.choice([0.5, 1.0, 2.0, 8.0]))
+        for b in ((0.0, 1.0), (-1.5, 2.0), (25.0, 8.0), (1e18, 2.0)):
+            r2 = dict(rp, a=[enc(a[0]), enc(a[1])], a2=[enc(a2[0]), enc(a2[1])], b=[enc(b[0]), enc(b[1])])
+            try:
+                bad, msg = c18_update(r2)
+            except Exception:  # noqa: BLE001
+                continue
+            if bad:
+                return r2, msg
+    return None
+
+
 @checker("c18_ordinal")
 def c18_ordinal(rp):
     R = rating_cls(rp["model"])
